@@ -275,6 +275,7 @@ func (tr *FnTr) contractCallInfo(x ssa.Value, f *calleeInfo, ct *FuncContract, a
 		}
 		if covered && !tr.excMode && !tr.top.refute {
 			tr.top.excLocks = append(tr.top.excLocks, excLock{Reach: tr.st.Reach, Locks: tr.st.Locks})
+			tr.noteExcSlots(tr.st.Reach)
 		}
 	}
 	if ct.Assumed {
